@@ -80,7 +80,7 @@ class LexStream(Stream):
 
         rng = ctx.rng_for("lex")
         out = []
-        for _ in range(ctx.scale(800, 8000)):
+        for _ in range(ctx.scale(1200, 10000)):
             comments = rng.chance(40)
             ps = gen_pieces(rng, comments)
             if not ps:
@@ -203,7 +203,7 @@ class RenderStream(Stream):
     def cases(self, ctx):
         rng = ctx.rng_for("render")
         out = []
-        for _ in range(ctx.scale(400, 3000)):
+        for _ in range(ctx.scale(500, 4000)):
             c = gen_render_case(rng)
             if c is not None:
                 out.append(c)
